@@ -64,7 +64,8 @@ def covering_sample(factors, k, rng):
 def config_factors(hierarchy, n_query, variant='c01'):
     drop = [None] + list(hierarchy[:-1]) + ['no_such_level']
     f = dict(flatten=[False, True], drop_level=drop,
-             chunk_size=[1, 3, n_query, n_query + 5], n_processors=[1, 2, 3])
+             chunk_size=[1, 3, n_query, n_query + 5], n_processors=[1, 2, 3],
+             n_runners_up=[0, 3], bootstrap_iteration=[1, 20])
     if variant == 'c03':
         f = dict(flatten=[False, True], drop_level=[None] + list(hierarchy[:-1]),
                  chunk_size=[4, n_query], n_processors=[1, 2],
